@@ -195,6 +195,16 @@ def correspondence(ctx):
             ctx.count('agree:decode')
         else:
             ctx.mismatch('decode', ms, got, rd)
+        # the Circuit object built from the model: labels, gate types, operand order, inputs, outputs
+        from common import circ_to_json
+        rc = ctx.driver.ask({'op': 'synth_circuit', 'spec': ms, 'true_vars': trues})
+        cj = circ_to_json(circ)
+        view = lambda j: None if j is None else {'gates': [[g[0], g[1], list(g[2])] for g in j['gates']],
+                                                 'inputs': list(j['inputs']), 'outputs': list(j['outputs'])}
+        if view(rc.get('ok')) == view(cj):
+            ctx.count('agree:circuit')
+        else:
+            ctx.mismatch('circuit', ms, view(cj), rc)
 
 
 def idx(label):
